@@ -2,6 +2,7 @@
 implementation through an *adapter*.
 
   run_tlc(tla, cfg, tag)                 -> {"dot": path, "generated": n, "distinct": n, "depth": n, "wall_s": s}
+  start_tlc(...) / wait_tlc(handle)      the same in two halves, so that TLC runs while the caller does other work
   parse_value(text) / parse_state(text)  -> TLA+ values as Python: set->frozenset, tuple->tuple, record/function->Rec,
                                             string->str, number->int, TRUE/FALSE->bool
   read_graph(dot)                        -> Graph(nodes, init, src, dst, labels)
@@ -187,9 +188,22 @@ def digest(v):
 # ---------------------------------------------------------------------------------------------------------------------
 # running TLC
 # ---------------------------------------------------------------------------------------------------------------------
-def run_tlc(tla, cfg, tag, deadlock_ok=False, timeout=1500):
-    """Dump the complete state graph of (tla, cfg) as a dot file under /verif/.cache/tlc/<tag>/ ."""
+def _prune_stale(max_age_s=3 * 3600):
+    """Dumps are large; remove what an interrupted earlier run may have left behind."""
+    try:
+        for d in os.listdir(CACHE):
+            p = os.path.join(CACHE, d)
+            if os.path.isdir(p) and time.time() - os.path.getmtime(p) > max_age_s:
+                shutil.rmtree(p, ignore_errors=True)
+    except OSError:
+        pass
+
+
+def start_tlc(tla, cfg, tag, deadlock_ok=False):
+    """Start TLC in the background; the complete state graph of (tla, cfg) is dumped as a dot file under
+    /verif/.cache/tlc/<tag>/ .  -> handle for wait_tlc."""
     work = os.path.join(CACHE, tag)
+    _prune_stale()
     shutil.rmtree(work, ignore_errors=True)
     os.makedirs(work)
     dot = os.path.join(work, "graph.dot")
@@ -198,24 +212,49 @@ def run_tlc(tla, cfg, tag, deadlock_ok=False, timeout=1500):
     if deadlock_ok:
         cmd.append("-deadlock")
     cmd.append(os.path.abspath(tla))
-    t0 = time.time()
+    log = open(os.path.join(work, "tlc.out"), "w")
+    proc = subprocess.Popen(cmd, cwd=work, stdout=log, stderr=subprocess.STDOUT)
+    return {"proc": proc, "log": log, "work": work, "dot": dot, "cmd": " ".join(cmd), "t0": time.time()}
+
+
+def wait_tlc(h, timeout=1500):
     try:
-        r = subprocess.run(cmd, cwd=work, capture_output=True, text=True, timeout=timeout)
+        h["proc"].wait(timeout=max(1.0, timeout - (time.time() - h["t0"])))
     except subprocess.TimeoutExpired:
-        shutil.rmtree(work, ignore_errors=True)
+        h["proc"].kill()
+        h["log"].close()
+        shutil.rmtree(h["work"], ignore_errors=True)
         raise HarnessError("tlc did not finish within %d s" % timeout)
-    out = r.stdout + r.stderr
+    h["log"].close()
+    wall = round(time.time() - h["t0"], 1)
+    with open(os.path.join(h["work"], "tlc.out")) as f:
+        out = f.read()
+    work, dot = h["work"], h["dot"]
     shutil.rmtree(os.path.join(work, "meta"), ignore_errors=True)
     if "Model checking completed. No error has been found." not in out:
-        tail = out[-3000:]
         shutil.rmtree(work, ignore_errors=True)
-        raise HarnessError("TLC reported an error on the model itself (model-level invariant or parse error):\n" + tail)
+        raise HarnessError("TLC reported an error on the model itself (model-level invariant or parse error):\n" + out[-3000:])
     m = re.search(r"(\d+) states generated, (\d+) distinct states found, (\d+) states left on queue", out)
     d = re.search(r"depth of the complete state graph search is (\d+)", out)
     if not m or int(m.group(3)) != 0 or not os.path.exists(dot):
+        shutil.rmtree(work, ignore_errors=True)
         raise HarnessError("TLC did not produce a complete graph: " + out[-1500:])
     return {"dot": dot, "work": work, "generated": int(m.group(1)), "distinct": int(m.group(2)),
-            "depth": int(d.group(1)) if d else None, "wall_s": round(time.time() - t0, 1), "cmd": " ".join(cmd)}
+            "depth": int(d.group(1)) if d else None, "wall_s": wall, "cmd": h["cmd"]}
+
+
+def abort_tlc(h):
+    try:
+        h["proc"].kill()
+        h["proc"].wait(timeout=30)
+    except Exception:
+        pass
+    h["log"].close()
+    shutil.rmtree(h["work"], ignore_errors=True)
+
+
+def run_tlc(tla, cfg, tag, deadlock_ok=False, timeout=1500):
+    return wait_tlc(start_tlc(tla, cfg, tag, deadlock_ok), timeout)
 
 
 def cleanup(info):
